@@ -347,6 +347,44 @@ fn one_subset(run: &Run, a: &Arch, case: u64, si: usize, d: &[u32]) {
             crate::scratch::rm(&r.arch);
         }
     }
+    // a persistent fault: every read / listing / probe of one path fails, however often it is
+    // tried again (an unreadable directory, a file that stays locked)
+    if only_mode.is_none() || only_mode.as_deref() == Some("persistent") {
+        let mut targets: Vec<(V, String)> = trace.iter().filter(|e| matches!(e.verb, V::Read | V::ListDir | V::Metadata)).map(|e| (e.verb, e.path.clone())).collect();
+        targets.sort();
+        targets.dedup();
+        let only_path = rp.as_ref().and_then(|r| r.get("path")).and_then(|m| m.as_str()).map(String::from);
+        for (verb, path) in targets {
+            if only_path.is_some() && only_path.as_deref() != Some(path.as_str()) {
+                continue;
+            }
+            for kind in [conserve::transport::ErrorKind::Other, conserve::transport::ErrorKind::PermissionDenied].into_iter().take(run.tier.pick(1, 2)) {
+                if run.out_of_time() {
+                    run.count("points_skipped_by_time_budget", 1);
+                    continue;
+                }
+                let r = run_delete(a, d, false, Mode::FailPath { verb, path: path.clone(), kind });
+                run.eval();
+                run.count("persistent_read_faults", 1);
+                let at = format!("{}:{}:{}:persistent", verb.name(), path_class(&path), kind_name(kind));
+                let replay = json!({"case": case, "subset": si, "delete": d, "mode": "persistent", "path": path, "kind": kind_name(kind)});
+                if let Some(p) = &r.out.panic {
+                    run.violation(format!("delete-panic:{}@{at}", panic_site(p)), p.clone(), replay.clone());
+                    crate::scratch::rm(&r.arch);
+                    continue;
+                }
+                match kept_intact(&r.arch, a, d, &a.world.sc) {
+                    Ok(n) => run.count("kept_versions_restored_after_fault", n),
+                    Err((c, det)) => run.violation(
+                        format!("read-fault:{c}@{at}"),
+                        format!("delete {d:?} with every {} of {path:?} failing (delete returned {}): {det}", verb.name(), r.out.describe()),
+                        replay,
+                    ),
+                }
+                crate::scratch::rm(&r.arch);
+            }
+        }
+    }
 }
 
 fn snapshot_sig(s: &BTreeMap<u32, Snapshot>) -> usize {
@@ -540,9 +578,9 @@ pub fn run(tier: Tier, replay: Option<Value>) -> i32 {
         bulk();
     }
     run.finish(
-        "(first: the repository's archives written by releases 0.6.0-0.6.17 get a new version, which is deleted again -- dry, real -- and a gc: their old version keeps its blocks and restores as before; gc, delete of the newer and of the older of two versions of a 10 040-file tree with one entry per hunk -- hunks in two index subdirectories -- judged like every other fault-free delete) archives from short histories (2-4 versions sharing combined blocks, optionally an interrupted band in the middle and garbage blocks from a hand-removed band); for each, every subset D of the bands when <= 4 (else 8 incl. none and all), named in a seeded random order and, for two or more versions, also newest first x {dry run, real}; with a GC_LOCK already present every delete must be refused and leave the archive (that lock included) byte-identical. Real runs: the fault-free delete must remove exactly D, leave other band directories byte-identical, leave exactly the blocks referenced by the remaining bands' own hunks (independent scan) and every kept complete version must restore exactly; then EVERY crash point k of the delete's trace and EVERY read/list_dir/metadata operation failing with each of 4 kinds: kept complete versions still restore exactly and no kept band has a dangling reference. Distinct = (history, D).",
+        "(first: the repository's archives written by releases 0.6.0-0.6.17 get a new version, which is deleted again -- dry, real -- and a gc: their old version keeps its blocks and restores as before; gc, delete of the newer and of the older of two versions of a 10 040-file tree with one entry per hunk -- hunks in two index subdirectories -- judged like every other fault-free delete) archives from short histories (2-4 versions sharing combined blocks, optionally an interrupted band in the middle and garbage blocks from a hand-removed band); for each, every subset D of the bands when <= 4 (else 8 incl. none and all), named in a seeded random order and, for two or more versions, also newest first x {dry run, real}; with a GC_LOCK already present every delete must be refused and leave the archive (that lock included) byte-identical. Real runs: the fault-free delete must remove exactly D, leave other band directories byte-identical, leave exactly the blocks referenced by the remaining bands' own hunks (independent scan) and every kept complete version must restore exactly; then EVERY crash point k of the delete's trace and EVERY read/list_dir/metadata operation failing with each of 4 kinds, and every path read, listed or probed failing persistently (every attempt, 2 kinds): kept complete versions still restore exactly and no kept band has a dangling reference. Distinct = (history, D).",
         &["kill = no later storage effect", "E2 reader trusted"],
         Some(true),
-        &[("real_deletes", 10), ("crash_points", 100), ("read_faults", 100), ("deletes_that_removed_blocks", 3), ("kept_versions_restored_after_fault", 50), ("deletes_on_versions_with_more_than_10000_hunks", 3), ("deletes_on_archives_written_by_earlier_releases", 6)],
+        &[("real_deletes", 10), ("crash_points", 100), ("read_faults", 100), ("persistent_read_faults", 50), ("deletes_that_removed_blocks", 3), ("kept_versions_restored_after_fault", 50), ("deletes_on_versions_with_more_than_10000_hunks", 3), ("deletes_on_archives_written_by_earlier_releases", 6)],
     )
 }
